@@ -489,7 +489,7 @@ repaired ones (the as-shipped definitions are kept in the model as `…AsIs` / `
 def B (s : String) : Bytes := s.toList
 def anySat : Nat → Bytes → Bool := fun _ _ => true
 def G : Bytes := B "GET"
-def reg (m p : String) (cons : List (Bytes × Nat) := []) : Reg := ⟨B m, [], B p, cons⟩
+def reg (m p : String) (cons : List (Bytes × Nat) := []) : Reg := ⟨B m, [], B p, cons, none⟩
 
 /-- K01a (repaired) — as shipped, one parameter child per node kept the first registered name and the handler
 of `/a/:y/c` read `x=1`, `y=""`; now the captured values are named after the matched route's own pattern:
@@ -573,7 +573,8 @@ theorem K01e_asIs_witness :
 def exSat : Nat → Bytes → Bool := fun _ v => v == B "42"
 def exScript : List Reg :=
   [reg "GET" "/users/:id" [(B "id", 0)], reg "GET" "/users/list", reg "POST" "/users/:id",
-   ⟨B "GET", [B "/files", B "/v1"], B "/*", []⟩, reg "DELETE" "/"]
+   ⟨B "GET", [B "/files", B "/v1"], B "/*", [], none⟩, reg "DELETE" "/",
+   ⟨B "GET", [B "/items"], B "/:id", [], some (B "api/")⟩, ⟨B "GET", [], B "/", [], some (B "/api/")⟩]
 def exReq : Req := ⟨G, B "/users/42", [B "id"]⟩
 def exReq405 : Req := ⟨B "PUT", B "/users/7", []⟩
 
